@@ -12,6 +12,15 @@ Theorem reset_links_valid :
 Proof. exact reset_links_valid_proof. Qed.
 Print Assumptions reset_links_valid.
 
+(* ... and the reset computes exactly the declarative description: every plain entry
+   ends up being (empty link name) or naming the FIRST KEPT member of its link group;
+   nothing else changes.  "A file whose link source was filtered out arrives as a
+   regular file and later members of its group link to it." *)
+Theorem reset_eq_spec :
+  forall l, wf_links l = true -> hardlink_reset l = reset_spec l.
+Proof. exact reset_eq_spec_proof. Qed.
+Print Assumptions reset_eq_spec.
+
 (* non-vacuity: a listing whose first group member was filtered out *)
 Definition mkst (p : list N) (mode : N) (ln : list N) : stat :=
   {| st_path := p; st_mode := mode; st_uid := 0; st_gid := 0; st_size := 3; st_mtime := 7;
